@@ -136,6 +136,13 @@ def run_range_loop(ctx, steps):
     ctx.clause("spec level, unbounded start / stop (Apalache, inductive): the iteration loop yields exactly the closed-form length and nothing beyond stop",
                len(jobs), bad)
     ctx.extra["apalache"] = {"obligations": len(jobs), "steps": sorted(steps), "solver_seconds": round(secs, 1)}
+    # the deductive part, for EVERY integer step at once (RangeLoopProof.tla, TLA+ proof system)
+    from lib import tlaps
+    proved, nob, secs, tail = tlaps.prove("RangeLoopProof", extra_modules=["RangeLoop"])
+    ctx.clause("spec level, every integer step / start / stop (TLAPS): the loop invariant is inductive and no yielded date is beyond stop", nob, 0 if proved else 1)
+    if not proved:
+        ctx.violation("range/loop-proof", "RangeLoopProof.tla: the proof system no longer proves the inductive invariant of the iteration loop", {"tlapm": tail})
+    ctx.extra["tlaps"] = {"obligations": nob, "seconds": round(secs, 1)}
     # the same module on a bounded grid, by TLC (with termination)
     for s in sorted(steps)[:2] + sorted(steps)[-2:]:
         for inc in (True, False):
